@@ -11,7 +11,7 @@ use neurons::tensor::Tensor;
 pub fn meta(ctx: &Ctx) -> Meta {
     let t = ctx.tier.thorough();
     Meta {
-        rule: format!("every layer sequence of <= {} tokens (one configuration deviation) over 5 input shapes that ends in a dense layer x EVERY subset of droppable layers (dense, convolution, deconvolution, layers inside feedback blocks) of size 1..{} carrying dropout 0.5 x epochs {{1,2,3}} x with/without validation data. Differential oracles, bit-exact: (i) the last validation pair returned by learn() equals validate() called right afterwards, and the e-th pair of a 3-epoch run equals the last pair of the e-epoch run; (ii) after learn(), predict equals predict of a twin network built WITHOUT dropout holding the same weights; (iii) validate()/predict() of a never-trained network equal the twin's; (iv) every training flag is off after learn() and after validate(); (v) the same after a run that left learn() through its early-stopping exit (tolerance 1). Non-trivial = a case in which the training-mode forward pass differs from the evaluation-mode one (the mask zeroed a non-zero element)", if t { 4 } else { 3 }, if t { "all" } else { "2" }),
+        rule: format!("every layer sequence of <= {} tokens (one configuration deviation) over 5 input shapes that ends in a dense layer x EVERY subset of droppable layers (dense, convolution, deconvolution, layers inside feedback blocks) of size 1..{} carrying dropout 0.5 x epochs {{1,2,3}} x with/without validation data. Differential oracles, bit-exact: (i) the last validation pair returned by learn() equals validate() called right afterwards, and the e-th pair of a 3-epoch run equals the last pair of the e-epoch run; (ii) after learn(), predict equals predict of a twin network built WITHOUT dropout holding the same weights; (iii) validate()/predict() of a never-trained network equal the twin's; (iv) every training flag is off after learn() and after validate(); (v) the same after a run that left learn() through its early-stopping exit (tolerance 1); (vi) the same along the call sequence validate, learn (with validation), learn (without), learn (with validation), validate. Non-trivial = a case in which the training-mode forward pass differs from the evaluation-mode one (the mask zeroed a non-zero element)", if t { 4 } else { 3 }, if t { "all" } else { "2" }),
         bound: format!("depth <= {}, dropout rate 0.5 (fixed-seed mask), 3 samples, batch 2", if t { 4 } else { 3 }),
         exhaustive: true,
         assumptions: vec!["Tensor::dropout uses a fixed seed, so training runs are deterministic and differential comparisons are bit-exact".into()],
@@ -240,6 +240,50 @@ pub fn check(seed: u64, case: &Kv, rep: &mut Report) {
                     if let (Ok(p), Ok(tp)) = (guard(|| l.predict(&xs[2])), guard(|| tw.predict(&xs[2]))) {
                         if bits(&p) != bits(&tp) {
                             rep.violate(format!("C09 network that stopped early predicts differently from its dropout-free twin [{}]", cls), net.name(), case);
+                            return;
+                        }
+                    }
+                }
+            }
+            Err(e) => {
+                if !e.contains("Loss is NaN") {
+                    rep.violate("C09 learn panics", format!("{}: {}", net.name(), crate::util::first_line(&e)), case);
+                    return;
+                }
+            }
+        }
+    }
+    // a longer life: validate -> learn(with validation) -> learn(without) -> learn(with validation) -> validate
+    {
+        let mut l = fresh(&net).unwrap();
+        rep.transitions += 12;
+        let seq = guard(|| {
+            let _ = l.validate(&vxr, &vtr, 0.1);
+            let _ = l.learn(&xr, &tr, Some((&vxr, &vtr, 10)), 2, 2, None);
+            let _ = l.learn(&xr, &tr, None, 3, 1, None);
+            let (_, vl, va) = l.learn(&xr, &tr, Some((&vxr, &vtr, 10)), 1, 1, None);
+            let after = l.validate(&vxr, &vtr, 1e-6);
+            (vl, va, after)
+        });
+        match seq {
+            Ok((vl, va, after)) => {
+                if vl.len() == 1 && (vl[0].to_bits() != after.0.to_bits() || va[0].to_bits() != after.1.to_bits()) {
+                    rep.violate(
+                        format!("C09 validation metrics reported by a later learn() call are not those of the dropout-free network [{}]", cls),
+                        format!("{}: reported ({:e}, {}), validate() gives ({:e}, {})", net.name(), vl[0], va[0], after.0, after.1),
+                        case,
+                    );
+                    return;
+                }
+                if neurons::verif::training_flags(&l).iter().any(|f| *f) {
+                    rep.violate(format!("C09 training flags set after a sequence of validate/learn calls [{}]", cls), net.name(), case);
+                    return;
+                }
+                if let Ok(trained) = libnet::get_params(&l) {
+                    let mut tw = build_with(&twin_spec, &shapes, &trained).unwrap();
+                    if let (Ok(p), Ok(tp)) = (guard(|| l.predict(&xs[0])), guard(|| tw.predict(&xs[0]))) {
+                        if bits(&p) != bits(&tp) {
+                            rep.violate(format!("C09 network predicts differently from its dropout-free twin after a sequence of calls [{}]", cls), net.name(), case);
                             return;
                         }
                     }
